@@ -45,6 +45,8 @@ type SSOCase struct {
 	// request (metadata, a valid SSO request and an attribute query each): state kept across requests
 	// must not leak into the request under test.
 	Prelude []string `json:"prelude_hosts,omitempty"`
+	// Noise: unrelated actors (another SP, user, tenant) use the same provider instance first, see withNoise.
+	Noise bool `json:"noise,omitempty"`
 }
 
 func (c SSOCase) hasDefect(name string) bool {
